@@ -83,7 +83,7 @@ def main(tier, replay=None):
             bad += PUSH_BAD
         if kind == "Tuple":
             bad += ["resize_grow"]
-        for et, vals in (("Int", [0, 3, 7, 11]), ("String", [b"", b"x", b"xy", b"\xfe"]), ("Probe", [0, 1, 2, 3])):
+        for et, vals in (("Int", [0, 3, 7, 11]), ("String", [b"", b"x%d", b"%$", b"\xfe"]), ("Probe", [0, 1, 2, 3])):
             if kind == "Tuple" and et == "Probe":
                 continue
             badk = bad + (["refuse_push", "refuse_pushat", "refuse_set"] if et == "Probe" else [])
@@ -92,7 +92,7 @@ def main(tier, replay=None):
                    "random/%s/%s" % (kind, et))
     for kind in ("Table", "Tree"):
         WRAP = sorted([55 * i for i in range(6)] + [5 * 11 * 23 * 53 * j - 1 for j in range(1, 5)] + [5 * 11 * 23 * 53 * j for j in (1, 2)])   # homes 0 and last
-        for kt, vt, keys in (("Int", "Int", list(range(0, 12 * 55, 55))), ("String", "Int", sorted(b"k%d" % i for i in range(12))),
+        for kt, vt, keys in (("Int", "Int", list(range(0, 12 * 55, 55))), ("String", "Int", sorted([b"k%d" % i for i in range(8)] + [b"100%", b"%d", b"%s%s", b"%$"])),
                              ("Probe", "Probe", list(range(0, 12 * 55, 55))), ("Int", "Probe", WRAP),
                              ("Odd12", "Int", list(range(0, 12 * 55, 55))), ("Int", "Odd12", list(range(0, 12 * 55, 55)))):
             cm.run(mapgen.header(kt, vt, keys, [7, 8, 9]),
